@@ -65,6 +65,13 @@ where
     let mut outs: Vec<(Devs, RunOut)> = Vec::new();
     let mut per_k = vec![];
     let base = run(&vec![]);
+    {
+        // determinism guard: the deviation-free execution must reproduce bit-identically
+        let again = run(&vec![]);
+        if again.trace != base.trace || again.points != base.points || again.violation != base.violation {
+            crate::report::machinery("nondeterminism: two deviation-free executions of the same scenario differ");
+        }
+    }
     let mut frontier: Vec<(Devs, u64)> = vec![(vec![], base.points)];
     outs.push((vec![], base));
     per_k.push(1);
@@ -102,6 +109,18 @@ where
             capped = true;
         }
         let done: Vec<(Devs, RunOut)> = results.into_iter().flatten().collect();
+        // determinism guard: the last execution of the level and every violating one (up to 8)
+        // must reproduce before anything is reported
+        let mut recheck: Vec<&(Devs, RunOut)> = done.iter().filter(|(_, o)| o.violation.is_some()).take(8).collect();
+        if let Some(l) = done.last() {
+            recheck.push(l);
+        }
+        for (d, o) in recheck {
+            let again = run(d);
+            if again.trace != o.trace || again.violation.as_ref().map(|v| &v.0) != o.violation.as_ref().map(|v| &v.0) {
+                crate::report::machinery(&format!("nondeterminism: execution with deviations {d:?} did not reproduce"));
+            }
+        }
         per_k.push(done.len() as u64);
         frontier = done.iter().map(|(d, o)| (d.clone(), o.points)).collect();
         outs.extend(done);
